@@ -429,6 +429,10 @@ def prove_scenario(scn, *, seed=0, crosscheck=2, max_paths=4000, timeout_ms=1000
             num_claims = scn(MkNum(env))
         except Infeasible:
             continue
+        except (ZeroDivisionError, OverflowError) as e_:
+            if _raised_in_repo(e_):
+                raise
+            continue   # Python-float overflow/underflow of the ORACLE at an extreme sample point (torch never raises these): no cross-check there
         by_name = {c[1]: c for c in num_claims}
         # a discrete fact ("must" claim: like "true", but declared free of rounding by the contract) that is false in the concrete run is a failure of the real code at that input (no rounding involved),
         # whatever the symbolic run said (e.g. autograd refusing to differentiate: invisible to the shim)
